@@ -30,15 +30,16 @@ def addKey {α : Type} [DecidableEq α] (k : α) (l : List α) : List α := if k
 def storeUser (d : Db) (u : User) (i : UserInfo) : Option Db :=
   match d.users u with
   | some _ => none
-  | none => some { d with users := fun x => if x = u then some i else d.users x, userKeys := addKey u d.userKeys }
+  | none => some { d with users := fun x => if x = u then some i else d.users x, userKeys := addKey u d.userKeys,
+                          log := d.log ++ [.storeUser u i] }
 
 /-- `update_user`: UPDATE … WHERE user_id; silently nothing when the row is missing -/
 def updateUser (d : Db) (u : User) (i : UserInfo) : Db :=
   match d.users u with
   | none => d
-  | some _ => { d with users := fun x => if x = u then some i else d.users x }
+  | some _ => { d with users := fun x => if x = u then some i else d.users x, log := d.log ++ [.updateUser u i] }
 
-/-- `UPDATE users SET available_slots` (inside `batch_remove_appointments`) -/
+/-- `UPDATE users SET available_slots` (inside `batch_remove_appointments`; not a write of its own) -/
 def setSlots (d : Db) (u : User) (slots : Nat) : Db :=
   match d.users u with
   | none => d
@@ -47,7 +48,8 @@ def setSlots (d : Db) (u : User) (slots : Nat) : Db :=
 /-- `store_appointment`: INSERT; PK clash → AlreadyExists, unknown user → MissingForeignKey -/
 def storeAppt (d : Db) (k : Uuid) (a : Appt) : Option Db :=
   match d.appts k, d.users a.user with
-  | none, some _ => some { d with appts := fun x => if x = k then some a else d.appts x, apptKeys := addKey k d.apptKeys }
+  | none, some _ => some { d with appts := fun x => if x = k then some a else d.appts x, apptKeys := addKey k d.apptKeys,
+                                  log := d.log ++ [.storeAppt k a] }
   | _, _ => none
 
 /-- `update_appointment`: blob, to_self_delay, user_signature, start_block; NotFound when missing -/
@@ -57,13 +59,15 @@ def updateAppt (d : Db) (k : Uuid) (a : Appt) : Option Db :=
   | some old =>
     some { d with appts := fun x => if x = k then
                      some { old with blob := a.blob, tsd := a.tsd, usig := a.usig, start := a.start }
-                   else d.appts x }
+                   else d.appts x
+                  log := d.log ++ [.updateAppt k a] }
 
 /-- `store_tracker`: needs a storable status, a fresh key and the appointment row (FK) -/
 def storeTracker (d : Db) (k : Uuid) (t : Tracker) : Option Db :=
   if !t.status.accepted then none else
   match d.trackers k, d.appts k with
-  | none, some _ => some { d with trackers := fun x => if x = k then some t else d.trackers x }
+  | none, some _ => some { d with trackers := fun x => if x = k then some t else d.trackers x,
+                                  log := d.log ++ [.storeTracker k t] }
   | _, _ => none
 
 /-- `update_tracker_status` -/
@@ -71,18 +75,37 @@ def updateTrackerStatus (d : Db) (k : Uuid) (st : CStatus) : Option Db :=
   if !st.accepted then none else
   match d.trackers k with
   | none => none
-  | some t => some { d with trackers := fun x => if x = k then some { t with status := st } else d.trackers x }
+  | some t => some { d with trackers := fun x => if x = k then some { t with status := st } else d.trackers x,
+                            log := d.log ++ [.updateTracker k st] }
 
-/-- `DELETE FROM appointments WHERE UUID IN …` (+ cascade to trackers) -/
-def removeAppts (d : Db) (ks : List Uuid) : Db :=
+/-- the rows a deletion removes: appointments and (cascade) their trackers -/
+def dropAppts (d : Db) (ks : List Uuid) : Db :=
   { d with appts := fun x => if x ∈ ks then none else d.appts x
            trackers := fun x => if x ∈ ks then none else d.trackers x }
+
+/-- `remove_appointment` / `batch_remove_appointments` without refund. A single `DELETE` of a row
+that does not exist changes nothing (and is not a successful write). -/
+def removeAppts (d : Db) (ks : List Uuid) : Db :=
+  match ks with
+  | [k] => if (d.appts k).isSome then { (d.dropAppts ks) with log := d.log ++ [.removeAppts ks []] } else d
+  | _ => { (d.dropAppts ks) with log := d.log ++ [.removeAppts ks []] }
+
+/-- `batch_remove_appointments(uuids, updated_users)`: one transaction deleting the rows and writing
+the refunded balances -/
+def removeApptsRefund (d : Db) (ks : List Uuid) (balances : List (User × Nat)) : Db :=
+  let d1 := d.dropAppts ks
+  let d2 := balances.foldl (fun d (b : User × Nat) => d.setSlots b.1 b.2) d1
+  { d2 with log := d.log ++ [.removeAppts ks balances] }
 
 /-- `batch_remove_users`: DELETE FROM users (+ cascade to appointments, then to trackers) -/
 def removeUsers (d : Db) (us : List User) : Db :=
   { d with users := fun x => if x ∈ us then none else d.users x
            appts := fun x => if x.2 ∈ us then none else d.appts x
-           trackers := fun x => if x.2 ∈ us then none else d.trackers x }
+           trackers := fun x => if x.2 ∈ us then none else d.trackers x
+           log := d.log ++ [.removeUsers us] }
+
+/-- `store_last_known_block` -/
+def storeLastKnown (d : Db) (b : Nat) : Db := { d with lastKnown := some b, log := d.log ++ [.lastKnown b] }
 
 def liveUsers (d : Db) : List User := d.userKeys.filter fun u => (d.users u).isSome
 def liveAppts (d : Db) : List Uuid := d.apptKeys.filter fun k => (d.appts k).isSome
@@ -143,11 +166,8 @@ def refundStep (acc : Tower × List User) (k : Uuid) : Tower × List User :=
 def deleteAppointments (s : Tower) (ks : List Uuid) (refund : Bool) : Tower :=
   if refund then
     let (s1, upd) := ks.foldl refundStep (s, [])
-    let db1 := s1.db.removeAppts ks
-    let db2 := upd.foldl (fun d u => match s1.mem.users u with
-                                      | some ui => d.setSlots u ui.slots
-                                      | none => d) db1
-    { s1 with db := db2 }
+    let balances := upd.filterMap fun u => (s1.mem.users u).map fun ui => (u, ui.slots)
+    { s1 with db := s1.db.removeApptsRefund ks balances }
   else
     { s with db := s.db.removeAppts ks }
 
